@@ -131,3 +131,13 @@ def replay(job: Job, args: dict, wall_timeout: float = 300.0):
         return _call_worker("replay", payload, wall_timeout, scratch)
     finally:
         shutil.rmtree(scratch, ignore_errors=True)
+
+
+def call(module: str, func: str, param=None, args=None, wall_timeout: float = 600.0):
+    """Run harness-module function `func(**args)` in a fresh worker process (it may drive CrossHair itself); returns its JSON value."""
+    scratch = tempfile.mkdtemp(prefix="verif-xh-")
+    try:
+        payload = {"module": os.path.join(HARNESS, module), "func": func, "param": param if isinstance(param, dict) else {"value": param}, "args": args or {}}
+        return _call_worker("call", payload, wall_timeout, scratch)
+    finally:
+        shutil.rmtree(scratch, ignore_errors=True)
